@@ -118,3 +118,6 @@ SPEC = {'id': 'C07',
  'assumptions': ["regexp's leftmost-first semantics equals priority backtracking for the supported syntax (documented "
                  'RE2 guarantee; validated differentially)',
                  'LogScrubber.Output.Write does not fail (the error path keeps the buffer and is outside the model)']}
+
+SPEC['rule'] += (' Added after the seeded-change rounds: ' +
+    'Lines of every length up to 1 MiB without a newline (nothing may be emitted before the newline; the pending buffer is unbounded in the source); Scrub as the first call of a fresh process (child process re-executing the test binary: the result must not depend on earlier use); every case is also evaluated twice in different orders (vh.Independent: the result depends on the input alone).')
